@@ -815,7 +815,7 @@ func (l *lexer) scanEscape() rune {
 		ch = l.next()
 	}
 
-	if ch == stopTok {
+	if ch == stopTok && l.hasError() {
 		// Reset the string.
 		l.resetStrBuf()
 	}
